@@ -55,7 +55,7 @@ def build_script(ctx, cases):
         os.chmod(rdir, 0o777)
         open(os.path.join(rdir, "etc", "snoopy.ini"), "wb").write(ini)      # the library finds its config relative to the cwd (see vlib.common.build)
         s.add("emit", "item:" + label).add("fork").add("name", drv.hx(topname)).add("ini", drv.hx(ini))
-        s.add("envset", drv.hx(b"TZ"), drv.hx(tz.encode())).add("envset", drv.hx(b"XVAR"), drv.hx(b"x value = with equals"))
+        s.add("envset", drv.hx(b"TZ"), drv.hx(tz.encode())).add("envset", drv.hx(b"XVAR"), drv.hx(b"x value = with equals\nand a second line"))
         s.add("envset", drv.hx(b"PWD"), drv.hx(b"/usr/share")).add("envset", drv.hx(b"HOSTNAME"), drv.hx(b"stale-host"))   # stale hints a data source must not trust
         nforks, ncall = 0, 0
         for st in steps:
